@@ -66,6 +66,8 @@ M = [
  ("C06","and-no-shortcircuit","compiler.go",'	case node.Operator == "&&" && !c.isTruthy(lres):','	case node.Operator == "&&" && lres == nil:'),
  ("C16","call-value-wrapped","compiler.go",'	return functionValue(res), nil','	return res, nil'),
  ("C16","unwrap-despite-output","compiler.go",'	for len(cur.Value) == 1 {','	for len(cur.Value) >= 1 {'),
+ ("C16","loop-ignores-return","compiler.go",'			if ro, ok := res.(returnObject); ok && c.fnDepth > 0 {\n				return loopReturn(ret, ro), nil\n			}\n\n			breakLoop := false','			if ro, ok := res.(returnObject); ok && c.fnDepth > 1 {\n				return loopReturn(ret, ro), nil\n			}\n\n			breakLoop := false'),
+ ("C16","depth-not-restored","compiler.go",'	c.fnDepth++\n	res, err := c.evalBlockStatement(node.Block)\n	c.fnDepth--','	c.fnDepth++\n	res, err := c.evalBlockStatement(node.Block)'),
 ]
 def main():
     only = sys.argv[1:] 
